@@ -501,7 +501,10 @@ def replay(prop, path, variants=("asan",)):
         print("op:    ", op[:400]); print("impl:  ", a[0]); print("model: ", b[0])
         if err.strip():
             print("stderr:", err[-1500:])
-        print("AGREE" if a[0] == b[0] else "DIFFER")
+        if b[0].startswith("ERR bad-op"):
+            print("(this op has no model line: it is decided by the property oracle; recorded violation text: %s)" % r.get("text", "")[:600])
+        else:
+            print("AGREE" if a[0] == b[0] else "DIFFER")
     return 0
 
 
